@@ -122,7 +122,7 @@ func checkResult(p *Program, res Result, mode string, cd codec) []Issue {
 	pending := map[int]ExpEvent{}
 	finish := func(ei int, exp ExpEvent, dest int) {
 		wantCalls = append(wantCalls, exp.HookCalls...)
-		if !exp.Written {
+		if !exp.Written || dest < 0 { // dest -1: the no-op logger's io.Discard
 			return
 		}
 		if dest >= len(nodes) || wi[dest] >= len(nodes[dest]) {
